@@ -57,4 +57,24 @@ prop("C02",
      runs=[dict(name="h_list", sources=["harness/h_list.c"], profile="asan",
                 args={"quick": ["--S=4"], "thorough": ["--S=6"]})],
      deadline={"quick": 200, "thorough": 3000})
+
+
+prop("C03",
+     level="model_checking",
+     technique="explicit-state BFS over map-interface histories on the three real map classes vs a sorted reference dictionary; caller objects mutated and deleted after each set; storage-order and link invariants",
+     rule="E1 per class (array, linked_list, dlinked_list map): BFS over histories of {set(k,v), set(pair(k,v),NULL), remove(k)} over the key/value alphabet to a fixpoint "
+          "(every dictionary over the key set is reached); dedup by dictionary; every op from every dictionary; every query probed in every new state; non-trivial = distinct dictionaries",
+     bounds={"quick": "3 keys x 2 values, fixpoint (27 dictionaries/class)", "thorough": "6 keys x 2 values, fixpoint (729 dictionaries/class)"},
+     runs=[dict(name="h_map", sources=["harness/h_map.c"], profile="asan", args={"quick": ["--keys=3"], "thorough": ["--keys=6"]})],
+     deadline={"quick": 200, "thorough": 3000})
+
+prop("C04",
+     level="model_checking",
+     technique="explicit-state BFS over vector-interface histories on the three real vector classes vs a reference multiset with identities; sortedness/permutation/link invariants",
+     rule="E1 per class: BFS over histories of {insert(x), remove(p)} with duplicate, minimum, maximum and absent probes to a fixpoint of the capped multiset space; "
+          "dedup by multiplicity vector; every op from every multiset; find/contains/iterator/to_array/dup probed in every new state; non-trivial = distinct multisets",
+     bounds={"quick": "3 values, multiplicity<=2, size<=4, fixpoint", "thorough": "4 values, multiplicity<=3, size<=7, fixpoint"},
+     runs=[dict(name="h_vector", sources=["harness/h_vector.c"], profile="asan",
+                args={"quick": ["--values=3", "--mult=2", "--S=4"], "thorough": ["--values=4", "--mult=3", "--S=7"]})],
+     deadline={"quick": 200, "thorough": 3000})
 NOT_CLAIMED = {}
